@@ -46,7 +46,7 @@ def generate(rng, tier, prop):
     maxops = 30 if tier == "quick" else rng.choice([30, 40, 60])
     n = rng.randint(1, maxops)
     ops = []
-    p_fork = rng.choice([0.05, 0.12])
+    p_fork = rng.choice([0.05, 0.12, 0.25])
     p_perturb = rng.choice([0.1, 0.25]) if subject == "entry" else 0.6
     has_fork = False
     for _ in range(n):
@@ -57,7 +57,7 @@ def generate(rng, tier, prop):
             ops.append({"op": "fork", "how": how})
             has_fork = has_fork or how == "deepcopy"
             continue
-        if r < p_fork + p_perturb:
+        if r < p_fork + (max(p_perturb, 0.4) if has_fork else p_perturb):
             attr = rng.choice(["type", "key", "raw", "line", "meta", "fkey", "fval", "fline", "value", "metadel"])
             ops.append({"op": "perturb", "h": h, "attr": attr, "i": rng.randrange(6), "j": rng.randrange(8)})
             continue
